@@ -25,6 +25,11 @@ META = {
         "c13_content_no_panic is FALSE on the pinned tree: c13_refuted (unsupported fMP4 codec -> nil decodePayload) and "
         "c13_refuted_zero_timescale (mdhd time scale 0 -> integer divide by zero); the partial theorem assumes all fMP4 init codecs supported and time scales non-zero",
         "model-compared streams keep sample times either below 0.2 s or beyond 1 h, so that the sleep in handleData does not decide the class",
+        "search-only (oracle) leg, NOT covered by any theorem: the MPEG-TS track processor's buffered sample queue (clientMPEGTSSampleQueueSize = 100) and the "
+        "blocking push into it are not in the model - c13_no_wedge_after_repair speaks about Err EBlocked inside client_run_gen, whose MPEG-TS path hands every "
+        "unit to its track processor at once; that a stream processor blocked in push (segments with more than 100 units of one track) still ends with the "
+        "track processor's error and still honours Close() is decided by the child-process oracle on long-segment streams (150-300 units: fatal time jump "
+        "after the first unit; Close() in the middle of the segment), hang watchdog reproduced 3 times",
     ],
 }
 
